@@ -32,4 +32,107 @@ var pinned = []Case{
 	// 5: sort panicked (index out of range) when the comparator truncated the array
 	{Recv: RecvSpec{Kind: "dense", Class: "dense", Elems: lits("3", "2", "1")}, Ops: []Op{
 		{K: "call", M: "sort", Args: []Arg{{CB: &m.CB{Fam: "cmp", Ret: "key", Mut: "shrink", Arg: 0}}}}}},
+	// 6: at() coerced the index before reading the length
+	{Recv: RecvSpec{Kind: "dense", Class: "dense", Elems: lits("1")}, Ops: []Op{
+		{K: "call", M: "at", Args: []Arg{{CB: &m.CB{Fam: "vo", Ret: "1", Mut: "push"}}}}}},
+	// 7: pop fast path left objCount unchanged: gate true with a hole
+	{Recv: RecvSpec{Kind: "dense", Class: "dense", Elems: lits("1", "2", "3")}, Ops: []Op{
+		{K: "call", M: "pop"},
+		{K: "set", I: 3, V: &Arg{V: "1"}, Mode: "sloppy"},
+		{K: "set", On: "AP", I: 2, V: &Arg{V: "'P'"}, Mode: "sloppy"},
+		{K: "call", M: "indexOf", Args: []Arg{{V: "'P'"}}}}},
+	// 8: shift fast path left objCount unchanged
+	{Recv: RecvSpec{Kind: "dense", Class: "dense", Elems: lits("1", "2", "3")}, Ops: []Op{
+		{K: "call", M: "shift"},
+		{K: "del", I: 0, Mode: "sloppy"},
+		{K: "set", On: "AP", I: 0, V: &Arg{V: "'P'"}, Mode: "sloppy"},
+		{K: "call", M: "indexOf", Args: []Arg{{V: "'P'"}}}}},
+	// 9: truncating length left objCount unchanged
+	{Recv: RecvSpec{Kind: "dense", Class: "dense", Elems: lits("1", "2", "3")}, Ops: []Op{
+		{K: "len", V: &Arg{V: "2"}, Mode: "sloppy"},
+		{K: "del", I: 0, Mode: "sloppy"},
+		{K: "set", On: "AP", I: 0, V: &Arg{V: "'P'"}, Mode: "sloppy"},
+		{K: "call", M: "includes", Args: []Arg{{V: "'P'"}}}}},
+	// 10: map fast path: result with holes had objCount == length (gate true with holes on the result)
+	{Recv: RecvSpec{Kind: "dense", Class: "dense", Elems: lits("'10'", "")}, Ops: []Op{
+		{K: "call", M: "map", Args: []Arg{{CB: &m.CB{Fam: "cb", Ret: "i"}}}}}},
+	// 11: the error text of a failed element delete called toString() on the array (join: getters run, O(length))
+	{Recv: RecvSpec{Kind: "dense", Class: "dense", Elems: lits("1", "2")}, Ops: []Op{
+		{K: "def", I: 0, D: &DescSpec{Get: "G1", C: "f", E: "t"}},
+		{K: "del", I: 0, Mode: "sloppy"},
+		{K: "del", I: 0, Mode: "strict"}}},
+	// 12: assignment to a read-only length coerced the value first (valueOf ran, RangeError possible)
+	{Recv: RecvSpec{Kind: "dense", Class: "frozen"}, Ops: []Op{
+		{K: "deflen", D: &DescSpec{W: "f"}},
+		{K: "len", V: &Arg{CB: &m.CB{Fam: "vo", Ret: "1"}}, Mode: "strict"},
+		{K: "len", V: &Arg{V: "-1"}, Mode: "sloppy"}}},
+	// 13: Export() of a sparse array called inherited getters with the prototype as this
+	{Recv: RecvSpec{Kind: "dense", Class: "sparse"}, Ops: []Op{
+		{K: "set", I: 4100, V: &Arg{V: "3"}, Mode: "sloppy"},
+		{K: "deflen", D: &DescSpec{V: "20"}},
+		{K: "def", On: "AP", I: 11, D: &DescSpec{Get: "G2", C: "t"}}}},
+	// 14: flat(undefined) used depth 0
+	{Recv: RecvSpec{Kind: "dense", Class: "dense", Elems: lits("N1", "1")}, Ops: []Op{
+		{K: "call", M: "flat", Args: []Arg{{V: "undefined"}}}}},
+	// 15: includes() did not treat -0 elements as equal to 0 (SameValueZero)
+	{Recv: RecvSpec{Kind: "dense", Class: "dense", Elems: lits("-0")}, Ops: []Op{
+		{K: "call", M: "includes", Args: []Arg{{V: "-0"}}},
+		{K: "call", M: "includes", Args: []Arg{{V: "0"}}},
+		{K: "del", I: 5, Mode: "sloppy"},
+		{K: "set", I: 2, V: &Arg{V: "-0"}, Mode: "sloppy"},
+		{K: "call", M: "includes", Args: []Arg{{V: "0"}, {V: "1"}}}}},
+	// 16: {set: undefined} is an accessor descriptor: redefining a frozen data element with it must fail
+	{Recv: RecvSpec{Kind: "dense", Class: "frozen", Elems: lits("1")}, Ops: []Op{
+		{K: "integ", M: "freeze"},
+		{K: "def", I: 0, D: &DescSpec{Set: "undefined", E: "t", C: "f"}, Mode: "reflect"},
+		{K: "get", I: 0}}},
+	// 17: accessor -> data conversion through {writable:false} kept the stale getter (visible through Export)
+	{Recv: RecvSpec{Kind: "dense", Class: "dense"}, Ops: []Op{
+		{K: "def", I: 2, D: &DescSpec{Get: "G1", Set: "S1f", E: "t", C: "t"}},
+		{K: "def", I: 2, D: &DescSpec{W: "f", E: "f", C: "t"}},
+		{K: "get", I: 2}}},
+	// 18: {writable:true} on a non-configurable accessor was accepted
+	{Recv: RecvSpec{Kind: "dense", Class: "dense"}, Ops: []Op{
+		{K: "def", I: 2, D: &DescSpec{Set: "S1f"}},
+		{K: "def", I: 2, D: &DescSpec{W: "t"}}}},
+	// 19: a.length = v was lost when v's valueOf switched the storage strategy (dense -> sparse)
+	{Recv: RecvSpec{Kind: "dense", Class: "dense"}, Ops: []Op{
+		{K: "len", V: &Arg{CB: &m.CB{Fam: "vo", Ret: "6", Mut: "setfar", Arg: 5000}}, Mode: "reflect"}}},
+	// 20: valueOf freezing the array during a.length = v (same value): no TypeError
+	{Recv: RecvSpec{Kind: "dense", Class: "dense"}, Ops: []Op{
+		{K: "def", I: 1, D: &DescSpec{V: "'b1'", W: "t", E: "t", C: "t"}},
+		{K: "len", V: &Arg{CB: &m.CB{Fam: "vo", Ret: "2", Mut: "freeze"}}, Mode: "strict"}}},
+	// 21: splice fast path added an element to a non-extensible array
+	{Recv: RecvSpec{Kind: "dense", Class: "frozen"}, Ops: []Op{
+		{K: "integ", M: "preventExtensions"},
+		{K: "call", M: "splice", Args: []Arg{{V: "0"}, {V: "0"}, {V: "'b1'"}}}}},
+	// 22: splice fast path added elements although the read-only length rejects index >= length
+	{Recv: RecvSpec{Kind: "dense", Class: "frozen"}, Ops: []Op{
+		{K: "deflen", D: &DescSpec{W: "f"}},
+		{K: "call", M: "splice", Args: []Arg{{V: "1"}, {V: "-3"}, {V: "11"}, {V: "1.5"}, {V: "O1"}}}}},
+	// 23: splice fast path bypassed a setter on Array.prototype when moving elements up
+	{Recv: RecvSpec{Kind: "dense", Class: "dense", Elems: lits("'a'", "20")}, Ops: []Op{
+		{K: "def", On: "AP", I: 3, D: &DescSpec{Get: "G1", Set: "S1f", E: "t", C: "t"}},
+		{K: "call", M: "splice", Args: []Arg{{V: "-4"}, {V: "-2"}, {V: "2"}, {V: "2"}}}}},
+	// 24: shift fast path decremented a read-only length
+	{Recv: RecvSpec{Kind: "dense", Class: "frozen", Elems: lits("1", "2")}, Ops: []Op{
+		{K: "deflen", D: &DescSpec{W: "f"}},
+		{K: "call", M: "shift"}}},
+	// 25: unshift fast path added an element to a non-extensible array
+	{Recv: RecvSpec{Kind: "dense", Class: "frozen", Elems: lits("1")}, Ops: []Op{
+		{K: "integ", M: "preventExtensions"},
+		{K: "call", M: "unshift", Args: []Arg{{V: "0"}}}}},
+	// 26: sparse->dense transition inside _defineIdxProperty lost propValueCount++ (twin excursion by defineProperty burst)
+	{Recv: RecvSpec{Kind: "dense", Class: "dense"}, Ops: []Op{
+		{K: "len", V: &Arg{V: "4098"}, Mode: "reflect"},
+		{K: "def", I: 13, D: &DescSpec{V: "true", W: "t", E: "f", C: "f"}},
+		{K: "exc", M: "toDenseDef"},
+		{K: "len", V: &Arg{V: "0"}, Mode: "sloppy"}}},
+	// 27: fast paths used the length read before a valueOf that shrank the array (splice inside valueOf keeps the gate true)
+	{Recv: RecvSpec{Kind: "dense", Class: "dense", Elems: lits("1", "2", "3", "4", "5")}, Ops: []Op{
+		{K: "call", M: "indexOf", Args: []Arg{{V: "1"}, {CB: &m.CB{Fam: "vo", Ret: "3", Mut: "splice", Arg: 4}}}}}},
+	{Recv: RecvSpec{Kind: "dense", Class: "dense", Elems: lits("1", "2", "3", "4", "5")}, Ops: []Op{
+		{K: "call", M: "slice", Args: []Arg{{V: "4"}, {CB: &m.CB{Fam: "vo", Ret: "5", Mut: "splice", Arg: 4}}}}}},
+	{Recv: RecvSpec{Kind: "dense", Class: "dense", Elems: lits("1", "2", "3", "4", "5")}, Ops: []Op{
+		{K: "call", M: "fill", Args: []Arg{{V: "7"}, {V: "0"}, {CB: &m.CB{Fam: "vo", Ret: "5", Mut: "splice", Arg: 4}}}}}},
 }
